@@ -281,8 +281,9 @@ func c19Exec(raw json.RawMessage) interface{} {
 		}
 		return true
 	}
-	if in.Seq {
+	if in.Seq || in.Fault != "" {
 		// the initial snapshot (if the restricted content is non-empty) before the first write
+		// (fault cases: the outage must hit a syncer that already holds the current content)
 		if len(rootedLocal()) > 0 {
 			waitUntil(func() bool { return count() >= 1 }, 15*time.Second)
 		} else {
